@@ -85,10 +85,13 @@ class Model:
 
 
 class CaseGen:
-    def __init__(self, seed):
+    def __init__(self, seed, avoid_known=False):
+        """avoid_known: do not generate the edits behind the open known findings (they end a
+        session: schema removed/replaced, extension removed/replaced, non-UTF-8 source file)."""
         self.seed = seed
         self.r = random.Random(seed)
         self.uniq = 0
+        self.avoid_known = avoid_known
 
     # -- content ------------------------------------------------------------------------
     def snippet(self, d, text=None):
@@ -108,7 +111,7 @@ class CaseGen:
 
     def vary(self, snip):
         """A variant of one snippet: still valid / unknown field / syntax error."""
-        k = self.r.choice(["typename", "unknown", "syntax", "dropline"])
+        k = self.r.choices(["typename", "unknown", "syntax", "dropline"], [40, 20, 15, 25])[0]
         i = snip.find("{\n")
         if i < 0:
             return snip + "// touched\n"
@@ -167,7 +170,7 @@ class CaseGen:
             layout[r.choice(paths)].append(self.fresh_field("ExtOnly1", "v"))
         for q, snips in layout.items():
             m.add_file(q, self.render(snips))
-        self.src_snips = {q: list(s) for q, s in layout.items()}
+        self.original = {q: self.render(s) for q, s in layout.items()}
         # a few non-source files from the start
         if r.random() < 0.5:
             m.add_file(join(r.choice(dirs), "notes.md"), "# notes\n\n" + self.fresh_field())
@@ -226,7 +229,7 @@ class CaseGen:
     def content_for_new(self):
         r = self.r
         k = r.random()
-        if k < 0.35:
+        if k < 0.45:
             return self.render([self.fresh_field()])
         if k < 0.55 and self.decl_snips:
             return self.render([r.choice(self.decl_snips)])       # duplicate definition somewhere
@@ -249,6 +252,8 @@ class CaseGen:
             ("schema", 10), ("ext", 6),
         ]
         k = r.choices([a for a, _ in kinds], [b for _, b in kinds])[0]
+        # the edits behind the open known findings end a script early: keep them rare
+        avoid = self.avoid_known or r.random() < 0.75
         srcs = self.src_files()
         files = sorted(f for f in m.files if f.startswith("src/"))
         dirs = m.all_dirs()
@@ -274,7 +279,9 @@ class CaseGen:
             old = m.files[pth]
             parts = old[len(HEADER):].split("\n\n") if old.startswith(HEADER) else [old]
             choice = r.random()
-            if choice < 0.5 and parts and parts[0]:
+            if choice < 0.25 and self.original.get(pth) not in (None, old):
+                new = self.original[pth]                       # repair: back to the initial content
+            elif choice < 0.5 and parts and parts[0]:
                 j = r.randrange(len(parts))
                 parts[j] = self.vary(parts[j])
                 new = HEADER + "\n\n".join(parts)
@@ -312,6 +319,8 @@ class CaseGen:
                     b = os.path.join(os.path.dirname(a), os.path.basename(b))
             if not b or b == a or not self.parent_exists(b) or b in m.dirs:
                 return None
+            if avoid and isinstance(m.files[a], bytes) and is_source_name(b):
+                return None
             m.add_file(b, m.files.pop(a))
             return {"op": "rename", "from": a, "to": b}, [a, b]
         if k == "rename_ext" and files:
@@ -319,6 +328,8 @@ class CaseGen:
             stem = a.rsplit(".", 1)[0]
             b = stem + r.choice([".ts", ".tsx", ".txt", ".md", ".ts.bak", ".js"])
             if b == a or m.exists(b):
+                return None
+            if avoid and isinstance(m.files[a], bytes) and is_source_name(b):
                 return None
             m.add_file(b, m.files.pop(a))
             return {"op": "rename", "from": a, "to": b}, [a, b]
@@ -360,7 +371,7 @@ class CaseGen:
             return {"op": "write", "path": pth, "text": c}, [pth]
         if k == "binary":
             d = r.choice([""] + [x[4:] for x in dirs])
-            name = r.choice(BIN_NAMES + (["bad.ts"] if r.random() < 0.15 else []))
+            name = r.choice(BIN_NAMES + (["bad.ts"] if r.random() < 0.15 and not avoid else []))
             pth = join(d, name)
             if pth in m.dirs or self.blocked(pth):
                 return None
@@ -417,7 +428,7 @@ class CaseGen:
             return None
         if k == "schema":
             sk = r.choices(["write", "toggle", "break", "atomic", "away", "back", "delete", "recreate", "touch"],
-                           [4, 8, 3, 3, 2, 4, 1, 2, 1])[0]
+                           [4, 8, 3, 0 if avoid else 2, 0 if avoid else 1, 4, 0 if avoid else 1, 2, 1])[0]
             S = "schema.graphql"
             if sk in ("write", "toggle", "break", "atomic") and m.schema is not None:
                 if sk == "toggle" or sk == "atomic":
@@ -446,7 +457,8 @@ class CaseGen:
             return None
         if k == "ext" and m.has_ext:
             E = "schema-extension.graphql"
-            ek = r.choices(["toggle", "break", "atomic", "delete", "recreate", "touch"], [8, 2, 2, 1, 2, 1])[0]
+            ek = r.choices(["toggle", "break", "atomic", "delete", "recreate", "touch"],
+                           [8, 2, 0 if avoid else 1, 0 if avoid else 1, 2, 1])[0]
             if ek in ("toggle", "atomic", "break") and m.ext is not None:
                 new = self.ext_off if m.ext.startswith(self.ext_on) else self.ext_on
                 if ek == "break":
@@ -495,8 +507,8 @@ class CaseGen:
         return steps
 
 
-def make_case(seed, root, idx):
-    g = CaseGen(seed)
+def make_case(seed, root, idx, avoid_known=False):
+    g = CaseGen(seed, avoid_known)
     tdir = os.path.join(root, f"t{idx}")
     g.make_template(tdir)
     steps = g.make_steps(g.r.randint(3, 25))
@@ -648,3 +660,285 @@ class WatchSession:
         except Exception:
             pass
         return self.buf[-800:]
+
+
+PROBE = "src/zz_probe.ts"
+
+
+def apply_op_real(proj, op):
+    """The same operations as the Rust executor, with real syscalls from python.
+    Returns False if the operation does not apply to the tree as it is."""
+    P = lambda rel: os.path.join(proj, rel)  # noqa: E731
+    k = op["op"]
+    try:
+        if k == "mkdir":
+            if os.path.exists(P(op["path"])) or not os.path.isdir(os.path.dirname(P(op["path"]))):
+                return False
+            os.mkdir(P(op["path"]))
+        elif k == "write":
+            p = P(op["path"])
+            if os.path.isdir(p):
+                return False
+            data = bytes.fromhex(op["hex"]) if op.get("hex") else (op.get("text") or "").encode()
+            d = os.path.dirname(p)
+            missing = []
+            while not os.path.exists(d):
+                missing.append(d)
+                d = os.path.dirname(d)
+            if not os.path.isdir(d):
+                return False
+            for m in reversed(missing):
+                os.mkdir(m)
+                if op.get("slow"):
+                    time.sleep(0.35)      # the recursive watch reaches the new folder first
+            with open(p, "wb") as f:
+                f.write(data)
+        elif k == "touch":
+            p = P(op["path"])
+            if not os.path.isfile(p):
+                return False
+            with open(p, "rb") as f:
+                b = f.read()
+            with open(p, "wb") as f:
+                f.write(b)
+        elif k == "chmod":
+            p = P(op["path"])
+            if not os.path.isfile(p):
+                return False
+            os.chmod(p, 0o664 if (os.stat(p).st_mode & 0o777) == 0o644 else 0o644)
+        elif k == "atomic_replace":
+            p = P(op["path"])
+            if os.path.isdir(p) or not os.path.isdir(os.path.dirname(p)):
+                return False
+            tmp = os.path.join(os.path.dirname(p), "." + os.path.basename(p) + ".tmp")
+            with open(tmp, "w") as f:
+                f.write(op["text"])
+            os.rename(tmp, p)
+        elif k == "remove_file":
+            if not os.path.isfile(P(op["path"])):
+                return False
+            os.remove(P(op["path"]))
+        elif k == "remove_dir":
+            p = P(op["path"])
+            if not os.path.isdir(p) or "__isograph" == os.path.basename(p) and False:
+                return False
+            shutil.rmtree(p)
+        elif k == "rename":
+            f, t = P(op["from"]), P(op["to"])
+            if not os.path.exists(f) or not os.path.isdir(os.path.dirname(t)) or (t + "/").startswith(f + "/"):
+                return False
+            if os.path.exists(t) and (os.path.isdir(f) or os.path.isdir(t)):
+                return False
+            os.rename(f, t)
+        elif k == "replace_file_by_dir":
+            p = P(op["path"])
+            if not os.path.isfile(p):
+                return False
+            os.remove(p)
+            os.mkdir(p)
+            if op.get("slow"):
+                time.sleep(0.35)
+            with open(os.path.join(p, op["inner"]), "w") as f:
+                f.write(op["text"])
+        elif k == "replace_dir_by_file":
+            p = P(op["path"])
+            if not os.path.isdir(p):
+                return False
+            shutil.rmtree(p)
+            with open(p, "w") as f:
+                f.write(op["text"])
+        elif k == "recreate":
+            p = P(op["path"])
+            if not os.path.isfile(p):
+                return False
+            os.remove(p)
+            with open(p, "w") as f:
+                f.write(op["text"])
+        else:
+            return False
+    except OSError:
+        return False
+    return True
+
+
+def proc_cpu_ticks(pid):
+    try:
+        with open(f"/proc/{pid}/stat") as f:
+            parts = f.read().rsplit(")", 1)[1].split()
+        return int(parts[11]) + int(parts[12])
+    except (OSError, IndexError, ValueError):
+        return None
+
+
+def batch_outcome(tool, proj, scratch, artifact_rel):
+    """A fresh batch compile (watch_tools batch = CompilerState::new + compile, what the CLI's
+    compile_and_print does; the debug CLI needs > 1 s per compile) of a copy of the project
+    without its artifact directory."""
+    if os.path.exists(scratch):
+        shutil.rmtree(scratch)
+
+    def ignore(d, names):
+        return [n for n in names if os.path.normpath(os.path.join(d, n)) == os.path.normpath(os.path.join(proj, artifact_rel))]
+
+    shutil.copytree(proj, scratch, ignore=ignore, symlinks=True)
+    try:
+        p = subprocess.run([tool, "batch", scratch], stdout=subprocess.PIPE, stderr=subprocess.PIPE, timeout=120,
+                           env=dict(runner.BASE_ENV, NO_COLOR="1"))
+    except subprocess.TimeoutExpired:
+        raise Inconclusive("batch compile of the copy: watchdog")
+    try:
+        j = json.loads(p.stdout.decode(errors="replace").strip().splitlines()[-1])
+    except (ValueError, IndexError):
+        return {"kind": "crash", "text": f"rc={p.returncode} " + p.stderr.decode(errors="replace")[-300:]}
+    if j["kind"] == "ok":
+        return {"kind": "ok", "artifacts": snapshot_dir(os.path.join(scratch, artifact_rel))}
+    return {"kind": j["kind"], "text": j.get("text", "")[-600:]}
+
+
+def real_session(cli, tool, seed, work, idx, n_steps):
+    """One watch session. Returns dict(status='held'|'violation'|'inconclusive', ...)."""
+    g = CaseGen(seed, avoid_known=True)
+    proj = os.path.join(work, f"real{idx}", "proj")
+    scratch = os.path.join(work, f"real{idx}", "copy")
+    os.makedirs(os.path.dirname(proj), exist_ok=True)
+    g.make_template(proj)
+    os.makedirs(os.path.join(proj, "outside"), exist_ok=True)
+    with open(os.path.join(proj, PROBE), "w") as f:
+        f.write("export const probe = 1;\n")
+    steps = g.make_steps(n_steps)
+    # the one more edit that shows the watcher still reacts
+    steps.append({"ops": [{"op": "write", "path": "src/zz_last_edit.ts", "text": g.render([g.fresh_field()])}],
+                  "gc": False, "last": True})
+    art = g.artifact_rel
+    out = {"status": "held", "seed": seed, "steps": 0, "records_ok": 0, "records_error": 0, "comparisons": 0,
+           "ops": {}, "waited_long": 0}
+    strays = set()
+    s = WatchSession(cli, proj)
+    try:
+        first = s.next_record(60)
+        if first in (None, "exited"):
+            out.update(status="inconclusive", why=f"no initial compile record ({first}): {s.buf[-300:]}")
+            return out
+        last_kind = first
+        # The watcher is created after the initial compile; edits made before inotify watches
+        # exist are lost (start-up window, not part of the property). Touch the probe until a
+        # recompile record shows that the watcher is live.
+        live = False
+        for _ in range(60):
+            apply_op_real(proj, {"op": "touch", "path": PROBE})
+            k = s.next_record(0.5)
+            if k == "exited":
+                out.update(status="inconclusive", why="watcher exited during start-up: " + s.buf[-300:])
+                return out
+            if k:
+                last_kind = k
+                live = True
+                break
+        if not live:
+            out.update(status="inconclusive", why="watcher never reacted to the probe file during start-up")
+            return out
+        k, _ = s.drain(0.6)
+        last_kind = k or last_kind
+        prev_art = snapshot_dir(os.path.join(proj, art))
+        for si, step in enumerate(steps):
+            applied = []
+            step_strays = set()
+            for op in step["ops"]:
+                if op.get("path", "").startswith(art + "/"):
+                    strays.add(os.path.relpath(op["path"], art))
+                    step_strays.add(os.path.relpath(op["path"], art))
+                if apply_op_real(proj, op):
+                    applied.append(op)
+                    out["ops"][op["op"]] = out["ops"].get(op["op"], 0) + 1
+            out["steps"] += 1
+            if not applied:
+                continue
+            want = batch_outcome(tool, proj, scratch, art)
+            if want["kind"] == "crash":
+                out.update(status="inconclusive", why="batch compile of the copy crashed (C08 territory): " + want["text"][-200:])
+                return out
+            agreed = False
+            mismatch = None
+            records_before = s.records
+            for attempt in (0, 1):
+                if attempt == 0:
+                    k, end = s.drain(1.2)
+                else:
+                    # Not equal after a quiet period. Timing must not decide: touch the probe file
+                    # (identical bytes). Events are handled in order, so once the record of the
+                    # probe's recompile is seen, everything before it has been handled.
+                    out["probes"] = out.get("probes", 0) + 1
+                    apply_op_real(proj, {"op": "touch", "path": PROBE})
+                    k = s.next_record(60)
+                    if k is None:
+                        out.update(status="inconclusive", why="no record within 60 s after touching the probe file")
+                        return out
+                    end = k if k == "exited" else None
+                    if k != "exited":
+                        k2, end = s.drain(0.6)
+                        k = k2 or k
+                if k and k != "exited":
+                    last_kind = k
+                    out["records_ok" if k == "ok" else "records_error"] += 1
+                if end == "exited" or not s.alive():
+                    return dict(out, status="violation", rule="watcher-stops", step=si,
+                                what="isograph_cli --watch exited after an edit: " + s.buf[-300:].replace("\n", " | "),
+                                cause=cause_of_ops(applied), witness={"seed": seed, "steps": steps[:si + 1]})
+                raw_art = snapshot_dir(os.path.join(proj, art))
+                got_art = {p: h for p, h in raw_art.items() if p not in strays}
+                if want["kind"] == "ok":
+                    ok = last_kind == "ok" and got_art == want["artifacts"]
+                    if not ok:
+                        mismatch = ("watch says %s, batch compile of a copy succeeds; %d artifact file(s) differ"
+                                    % (last_kind, len({p for p in set(got_art) | set(want["artifacts"])
+                                                       if got_art.get(p) != want["artifacts"].get(p)})))
+                else:
+                    ok = last_kind == "error"
+                    if not ok:
+                        mismatch = "watch says ok, batch compile of a copy fails: " + want["text"][-200:].replace("\n", " | ")
+                    elif ({p: h for p, h in raw_art.items() if p not in step_strays}
+                          != {p: h for p, h in prev_art.items() if p not in step_strays}
+                          and s.records - records_before == 1):
+                        # C17 (watch clause): failed recompile must not touch the directory
+                        return dict(out, status="violation", rule="c17-watch-failed-compile-touched-artifacts", step=si,
+                                    what="artifact directory changed although the recompile failed",
+                                    cause=cause_of_ops(applied), witness={"seed": seed, "steps": steps[:si + 1]})
+                if ok:
+                    agreed = True
+                    break
+            out["comparisons"] += 1
+            if not agreed:
+                return dict(out, status="violation", rule="diverged", step=si,
+                            what="real watcher, after the probe recompile: " + (mismatch or ""),
+                            cause=cause_of_ops(applied), witness={"seed": seed, "steps": steps[:si + 1]})
+            prev_art = snapshot_dir(os.path.join(proj, art))
+        if not s.alive():
+            return dict(out, status="violation", rule="watcher-stops", step=len(steps), what="watcher not alive at the end",
+                        cause="end-of-session", witness={"seed": seed, "steps": steps})
+        return out
+    finally:
+        out["tail"] = s.close()[-200:]
+        shutil.rmtree(os.path.join(work, f"real{idx}"), ignore_errors=True)
+
+
+def cause_of_ops(ops):
+    def cls(p):
+        if p == "schema.graphql":
+            return "schema"
+        if p.startswith("schema-extension"):
+            return "extension"
+        if not p.startswith("src/"):
+            return "outside"
+        if "__isograph" in p:
+            return "isograph-named"
+        ext = os.path.basename(p).rsplit(".", 1)
+        if len(ext) == 2:
+            return "source" if ext[1] in ("ts", "tsx", "js", "jsx") else "non-source"
+        return "folder"
+    parts = []
+    for op in ops:
+        if op["op"] == "rename":
+            parts.append(f"rename:{cls(op['from'])}-to-{cls(op['to'])}")
+        else:
+            parts.append(f"{op['op'].replace('_', '-')}:{cls(op['path'])}")
+    return "real:" + "+".join(parts)
